@@ -12,6 +12,7 @@ import (
 	"os"
 	"sort"
 	"strings"
+	stdtime "time"
 
 	"verif/mc/vrt"
 )
@@ -320,6 +321,202 @@ func Rename(from, to string) error {
 		fs.Files[to] = data
 		delete(fs.Files, from)
 		fs.after(op)
+	}
+	return nil
+}
+
+// ---------------------------------------------------------------------------
+// The rest of the os surface a change to the queue may plausibly reach for
+// (file sizes, truncation, whole-file helpers). Mutating calls are logged like
+// the ones above, so they are crash points too.
+
+type FileInfo = os.FileInfo
+type PathError = os.PathError
+type LinkError = os.LinkError
+
+const (
+	O_EXCL   = os.O_EXCL
+	O_SYNC   = os.O_SYNC
+	SEEK_SET = 0
+	SEEK_CUR = 1
+	SEEK_END = 2
+)
+
+var (
+	ErrNotExist = os.ErrNotExist
+	ErrExist    = os.ErrExist
+	ErrClosed   = os.ErrClosed
+	Stdout      = os.Stdout
+)
+
+func IsExist(err error) bool    { return os.IsExist(err) }
+func Getpid() int               { return 1 }
+func Getenv(k string) string    { return os.Getenv(k) }
+func Hostname() (string, error) { return "vhost", nil }
+func TempDir() string           { return "/vtmp" }
+func Create(name string) (*File, error) {
+	return OpenFile(name, O_RDWR|O_CREATE|O_TRUNC, 0666)
+}
+
+type fileInfo struct {
+	name string
+	size int64
+	dir  bool
+}
+
+func (fi fileInfo) Name() string { return fi.name }
+func (fi fileInfo) Size() int64  { return fi.size }
+func (fi fileInfo) Mode() FileMode {
+	if fi.dir {
+		return os.ModeDir | 0755
+	}
+	return 0600
+}
+func (fi fileInfo) ModTime() (t stdtime.Time) { return }
+func (fi fileInfo) IsDir() bool               { return fi.dir }
+func (fi fileInfo) Sys() interface{}          { return nil }
+
+func base(p string) string {
+	if i := strings.LastIndex(p, "/"); i >= 0 {
+		return p[i+1:]
+	}
+	return p
+}
+
+func Stat(name string) (FileInfo, error) {
+	fs := cur()
+	if fs == nil {
+		return os.Stat(name)
+	}
+	if d, ok := fs.Files[name]; ok {
+		return fileInfo{name: base(name), size: int64(len(d))}, nil
+	}
+	if fs.Dirs[name] || fs.Dirs[strings.TrimSuffix(name, "/")] {
+		return fileInfo{name: base(name), dir: true}, nil
+	}
+	return nil, &os.PathError{Op: "stat", Path: name, Err: os.ErrNotExist}
+}
+
+func Lstat(name string) (FileInfo, error) { return Stat(name) }
+
+func (f *File) Stat() (FileInfo, error) {
+	if f.real != nil {
+		return f.real.Stat()
+	}
+	if f.closed {
+		return nil, errClosed
+	}
+	return fileInfo{name: base(f.path), size: int64(len(f.fs.Files[f.path]))}, nil
+}
+
+func (fs *FS) truncate(name string, size int64) error {
+	data, ok := fs.Files[name]
+	if !ok {
+		return &os.PathError{Op: "truncate", Path: name, Err: os.ErrNotExist}
+	}
+	op := Op{Kind: "truncate", Path: name, Off: size}
+	if fs.record(op) {
+		for int64(len(data)) < size {
+			data = append(data, 0)
+		}
+		fs.Files[name] = append([]byte(nil), data[:size]...)
+		fs.after(op)
+	}
+	return nil
+}
+
+func Truncate(name string, size int64) error {
+	fs := cur()
+	if fs == nil {
+		return os.Truncate(name, size)
+	}
+	return fs.truncate(name, size)
+}
+
+func (f *File) Truncate(size int64) error {
+	if f.real != nil {
+		return f.real.Truncate(size)
+	}
+	if f.closed {
+		return errClosed
+	}
+	if _, ok := f.fs.Files[f.path]; !ok {
+		return nil // unlinked while open
+	}
+	return f.fs.truncate(f.path, size)
+}
+
+func (f *File) WriteString(s string) (int, error) { return f.Write([]byte(s)) }
+
+func (f *File) ReadAt(b []byte, off int64) (int, error) {
+	if f.real != nil {
+		return f.real.ReadAt(b, off)
+	}
+	if f.closed {
+		return 0, errClosed
+	}
+	data := f.fs.Files[f.path]
+	if off >= int64(len(data)) {
+		return 0, io.EOF
+	}
+	n := copy(b, data[off:])
+	if n < len(b) {
+		return n, io.EOF
+	}
+	return n, nil
+}
+
+func (f *File) WriteAt(b []byte, off int64) (int, error) {
+	if f.real != nil {
+		return f.real.WriteAt(b, off)
+	}
+	save := f.pos
+	f.pos = off
+	n, err := f.Write(b)
+	f.pos = save
+	return n, err
+}
+
+func ReadFile(name string) ([]byte, error) {
+	fs := cur()
+	if fs == nil {
+		return os.ReadFile(name)
+	}
+	d, ok := fs.Files[name]
+	if !ok {
+		return nil, &os.PathError{Op: "open", Path: name, Err: os.ErrNotExist}
+	}
+	return append([]byte(nil), d...), nil
+}
+
+func WriteFile(name string, data []byte, perm FileMode) error {
+	f, err := OpenFile(name, O_WRONLY|O_CREATE|O_TRUNC, perm)
+	if err != nil {
+		return err
+	}
+	_, err = f.Write(data)
+	if e := f.Close(); err == nil {
+		err = e
+	}
+	return err
+}
+
+func RemoveAll(path string) error {
+	fs := cur()
+	if fs == nil {
+		return os.RemoveAll(path)
+	}
+	names := []string{}
+	for n := range fs.Files {
+		if n == path || strings.HasPrefix(n, strings.TrimSuffix(path, "/")+"/") {
+			names = append(names, n)
+		}
+	}
+	sort.Strings(names)
+	for _, n := range names {
+		if err := Remove(n); err != nil {
+			return err
+		}
 	}
 	return nil
 }
